@@ -263,7 +263,6 @@ def check_unknown(case, rec):
     rec.nontrivial()
 
 
-NO_SHRINK = {'lattice', 'natural', 'unknown'}
 CHECKS = {'lattice': check_lattice, 'natural': check_natural, 'unknown': check_unknown}
 
 
